@@ -300,6 +300,7 @@ pub fn run(tier: &str) -> i32 {
         max_crashes: 1,
         after_restart2: vec![],
         max_buffer_batches: 0,
+        torn_append: false,
         flush_row_count: 2,
         max_segment_size: 64 << 20,
         ticks: 1,
